@@ -89,10 +89,24 @@ def design(ctx):
     def ownstale():
         return explore("ownstale", maxops=4, own=True)
 
+    def shared_tmp():
+        # the two clauses of specs/PidfileConcTrace.tla on the model: with private temporary files interleaved creates
+        # never publish partial or foreign content; with one shared temporary file they do
+        out = {}
+        for label, dev in (("private", []), ("shared", ["SharedTmp"])):
+            path = os.path.join(OUT, "cfg", "Pidfile_conc_%s.cfg" % label)
+            tlc.write_cfg(path, spec="Spec",
+                          constants={"Atomic": False, "MaxOps": 2, "MaxCrash": 1, "Dev": set(dev), "OwnStale": False,
+                                     "HistMode": "none", "CrashIn": "create"},
+                          invariants=["TypeOK"], properties=["NeverPartialContent"], constraints=["LevelBound"], view="view")
+            out[label] = tlc.run("Pidfile", path, name="Pidfile_conc_" + label, workers=2, timeout=900)
+        return out
+
     with ThreadPoolExecutor(max_workers=4) as ex:
         fm = ex.submit(main)
         fi = ex.submit(inter)
         fo = ex.submit(ownstale)
+        fs = ex.submit(shared_tmp)
         fd = [ex.submit(dev, d) for d in DEVS]
         r = fm.result()
         if not r.ok:
@@ -110,6 +124,15 @@ def design(ctx):
                                    % (d, sorted(DEVS[d]), sorted(got)))
         ri, ri_broken = fi.result()
         ro, ro_broken = fo.result()
+        rs = fs.result()
+        if not rs["private"].ok:
+            raise tlc.TLCError("interleaved creates with private temporary files violate %s" % rs["private"].violated)
+        ctx.add_model(rs["private"], "two creates, system calls interleaved, crash before any: NeverPartialContent")
+        ctx.coverage.setdefault("deviation_runs", []).append(
+            {"dev": "SharedTmp", "expected_one_of": ["NeverPartialContent"], "violated": sorted(set(rs["shared"].violated)),
+             "reproduced": "NeverPartialContent" in rs["shared"].violated})
+        if "NeverPartialContent" not in rs["shared"].violated:
+            raise tlc.TLCError("deviation SharedTmp does not break NeverPartialContent under interleaving")
     ctx.coverage["exploratory_interleaved"] = {
         "distinct": ri.distinct, "generated": ri.generated,
         "violated": ri_broken, "note": "system-call interleaving; C17 quantifies over "
